@@ -395,6 +395,7 @@ def c02(ctx, rep):
     rep.rule = "one obligation per (clause, path/call site); compares def-use terms of the two walks and the call-argument bindings of the undo flag"
     rep.trust(*TRUST_IP)
     rep.assume("C01's obligations (F is a bijection at every node) — re-checked here for the forward walk as the sibling reference")
+    m.check_subclasses(rep, "C02")  # both directions run the base's functions for both families (method resolution order)
     fwd = m.check_walk(rep, "C02.fwd")
     inv = m.check_walk(rep, "C02", inverse=True)
     m.check_split(rep, "C02.fwd")
@@ -472,6 +473,7 @@ def c03(ctx, rep):
                     rep.fail("C03.stratification", f.qualname, "the recursive walk is called from outside anonymize/deanonymize: %s" % show(cs.term), cs.where)
     # file level: one FileAnonymizer per anonymize_files, before the loop
     _one_anonymizer_per_run(ctx, m, rep, "C03")
+    m.check_subclasses(rep, "C03")  # the functions analysed are the functions every family object runs (method resolution order)
     # salt defaulting must not replace a given salt
     _salt_defaulting(ctx, rep, "C03")
     _pin_iterable(m, rep, "C03")
@@ -1099,6 +1101,7 @@ def c05(ctx, rep):
     rep.trust(*TRUST_IP)
     rep.assume("the recognised bit idioms ('d & (~d + 1) == d' etc. on the 31 adjacent-bit transitions) accept exactly the 64 mask/wildcard words: the arithmetic identity is trusted, only shape and constants are checked")
     _undo_threading(ctx, m, rep, "C05")
+    m.check_subclasses(rep, "C05")
     _gate_content(ctx, m, rep, "C05")
     # _preserve_addresses built from every element
     fn = m.f_v4init
